@@ -285,6 +285,11 @@ def extract(ctx):
     g.strings('updatedVarId', _assigned(pu, 'var_id'))
     g.strings('updatedCalls', _calls(pu, 'self.param_update_callbacks') + _calls(pu, 'self.group_update_callbacks')
               + _calls(pu, 'self.all_update_callback') + _calls(pu, 'self.all_updated') + _calls(pu, 'self._initialized'))
+    done = [n for n in ast.walk(pu) if isinstance(n, ast.If) and any(ast.unparse(b) == 'self.is_updated = True' for b in n.body)]
+    X.expect(len(done) == 1, '_param_updated: the `all parameters updated` test was not found')
+    t = done[0].test
+    g.strings('updatedCompleteTest', [ast.unparse(v) for v in t.values] if isinstance(t, ast.BoolOp) and isinstance(t.op, ast.And) else [ast.unparse(t)])
+    g.strings('updatedCompleteBody', [ast.unparse(b) for b in done[0].body])
     g.strings('updatedStore', _assigned(pu, 'self.values[element.group][element.name]'))
     g.strings('updatedValueStr', _assigned(pu, 'value_s'))
     # -- misc requests and reply handlers
@@ -1459,6 +1464,18 @@ def correspond(ctx):
         split = nr and (k % 6 == 1)
         sc = Scenario(ctx, routing, snap, v2=v2, all_types=(k % 5 == 0), n=10 if k % 5 == 0 else None, needs_resending=nr, split=split)
         try:
+            if k % 7 == 3:
+                # values arrive while the connection is not yet established (D28): no "all updated" until it is
+                import datetime
+                sc.real.cf.connected_ts = None
+                sc.emit('set-connected 0', ['ok', '-'])
+                drain(sc)
+                sc.real.cf.connected_ts = datetime.datetime.now()
+                sc.emit('set-connected 1', ['ok', '-'])
+                nm0 = sc.names[0]
+                sc.emit('requpd %s %d' % (sc.real.cn(nm0), 1 if sc.real.proto4() else 0), ['ok'] + sc.real.request_update(nm0))
+                drain(sc)
+                ctx.count('link:values-before-connected')
             if ctx.rng.random() < 0.7 or split:
                 drain(sc)                       # fetch all values: fully connected
             if split:
@@ -2148,7 +2165,10 @@ def _vsched_case(ctx, S, seed, nworkers, nreq, trace_points=()):
                 oput(item)
             q._put = logged_put
             cf.param.add_update_callback(group=None, name=None, cb=lambda nm, v: vsched.emit('upd', nm, v))
-            cf.param.request_update_of_all_params()
+            # the library's own `connected` stage (sets connected_ts - is_connected() gates the all-updated notification - and
+            # requests every value); the latency ping thread is not wanted here
+            cf.link_statistics.start = lambda: None
+            cf._param_toc_updated_cb()
             if not cf.param._initialized.wait(timeout=30):
                 return 'not-initialized'
 
